@@ -179,6 +179,22 @@ def run_definition(ctx, P):
         ref = expected(ctx, name, kw2, buckets, None)
         compare_series(ctx, name, got, ref)
         return ind, buckets, got, ref, None
+    if P.get("feed") == "live-lifespan":
+        # fed live under a candle lifespan that always keeps what a new reading looks back on: the retained candles carry the
+        # readings the definition gives them over the WHOLE stream (trimming the head must not restart any helper series)
+        from datetime import timedelta
+        L = P["life_minutes"]
+        ind = build(name, kw2, candles=[], round_value=RV, candles_lifespan=timedelta(minutes=L), **(P.get("extra") or {}))
+        for c in clone(cs):
+            ind.append(c)
+        got = ind.as_list()
+        ctx.observe("readings", got)
+        m = len(got)
+        if not ctx.require(f"{name}:retained-count", m == min(n, L + 1), f"{m} candles retained"):
+            return ind, cs, got, None, x
+        ref = expected(ctx, name, kw2, cs, x)[-m:]
+        compare_series(ctx, name, got, ref)
+        return ind, cs, got, ref, x
     if P.get("feed") == "cidx-then-append":
         # part of the stream calculated, an OLDER candle recomputed with calculate_index (which must change nothing, also
         # not in the helper series), then the rest of the stream appended: the definition over the whole stream
@@ -195,9 +211,22 @@ def run_definition(ctx, P):
         ref = expected(ctx, name, kw2, cs, x)
         compare_series(ctx, name, got, ref)
         return ind, cs, got, ref, x
-    ind = build(name, kw2, candles=cs, round_value=RV, **(P.get("extra") or {}))
+    extra = dict(P.get("extra") or {})
+    if P.get("lifespan_days"):
+        # a lifespan far longer than the stream (days on a one-minute grid) trims nothing: the definition over all candles
+        from datetime import timedelta
+        extra["candles_lifespan"] = timedelta(days=P["lifespan_days"], hours=P.get("lifespan_hours", 0))
+    ind = build(name, kw2, candles=cs, round_value=RV, **extra)
     ind.calculate()
     got = ind.as_list()
+    if P.get("lifespan_days"):
+        ctx.require(f"{name}:a lifespan of days keeps a stream of minutes whole", len(ind.candles) == n, f"{len(ind.candles)} of {n} candles retained")
+        live = build(name, kw2, candles=[], round_value=RV, **extra)
+        for c in clone(cs):
+            live.append(c)
+        ctx.require(f"{name}:a lifespan of days keeps a stream of minutes whole (appended)", len(live.candles) == n, f"{len(live.candles)} of {n} candles retained")
+        if len(live.candles) == n:
+            compare_series(ctx, name + "(appended)", live.as_list(), expected(ctx, name, kw2, cs, x))
     ctx.observe("readings", got)
     ref = expected(ctx, name, kw2, cs, x)
     compare_series(ctx, name, got, ref)
